@@ -6,6 +6,7 @@ import itertools
 import z3
 
 from pyvc.contracts import Contract
+from pyvc.core import RaiseSig
 from pyvc.core import fresh_name
 from pyvc.interp import EngineCallable
 from pyvc.values import AbsObj, Obj, Opaque, PDict, PList, mk, sym, to_z3, zbool
@@ -19,7 +20,7 @@ class ParentSet(Contract):
     lenient = True
 
     def cases(self):
-        return ["new-parent", "same-parent", "first-parent"]
+        return ["new-parent", "same-parent", "first-parent", "new-parent-refuses"]
 
     def setup(self, ctx):
         from geoh5py.objects import Points
@@ -41,6 +42,12 @@ class ParentSet(Contract):
             return p
 
         old, new = mk_parent("old-parent"), mk_parent("new-parent")
+        if ctx.case == "new-parent-refuses":
+            def refuse(I, a, kw):
+                I.event("add_children", parent="new-parent", children=a[0])
+                raise RaiseSig(TypeError, "this parent does not take such children")
+
+            new.attrs["add_children"].maybe_method = refuse
         ctx.path.assume(~old.none_var())
         ctx.path.assume(~new.none_var())
         me.attrs["_parent"] = None if ctx.case == "first-parent" else old
@@ -55,12 +62,28 @@ class ParentSet(Contract):
         rems = [p for k, p in ev if k == "remove_children"]
         saves = [p for k, p in ev if k == "save_entity"]
         tgt = e["target"]
+        if ctx.case == "new-parent-refuses":
+            ctx.oblige("a-refusal-by-the-new-parent-is-not-swallowed", False, note="the new parent refused the child but the assignment returned normally")
+            return
         ctx.oblige("the-entity-joins-the-requested-parent", len(adds) == 1 and adds[0]["parent"] == tgt.tag and e["me"].attrs.get("_parent") is tgt)
         if ctx.case == "new-parent":
             ctx.oblige("the-entity-leaves-its-old-parent", len(rems) == 1 and rems[0]["parent"] == "old-parent")
             ctx.oblige("the-move-is-written-to-the-file", len(saves) == 1 and saves[0]["entity"] is e["me"])
         else:
             ctx.oblige("assigning-the-current-parent-removes-nothing", len(rems) == 0, note="; ".join(p["parent"] for p in rems))
+
+
+def _parentset_post_raises(self, ctx, sig):
+    e = ctx.env
+    ev = ctx.path.events
+    rems = [p for k, p in ev if k == "remove_children"]
+    saves = [p for k, p in ev if k == "save_entity"]
+    ctx.oblige("only-a-refusing-parent-makes-the-move-fail", ctx.case == "new-parent-refuses", kind="post-exc")
+    ctx.oblige("a-refused-move-leaves-the-entity-under-its-old-parent", not rems and not saves and e["me"].attrs.get("_parent") is e["old"], kind="post-exc",
+               note="the new parent refused the child after the entity had already been detached from its old parent (in memory and on file): it is left without any parent entry")
+
+
+ParentSet.post_raises = _parentset_post_raises
 
 
 class PropertyGroupRemove(Contract):
